@@ -308,6 +308,10 @@ def run_parafac2(X, rank, k, seed, opts):
                              init="random", n_iter_parafac=3, verbose=True, **opts)
     rec = Rec()
     rec.ls = ls_decisions(buf.getvalue())
+    # number of executed outer iterations: n_iter_max, or what "converged in <iteration> iterations." says (break in that iteration)
+    import re as _re
+    mconv = _re.search(r"^converged in (\d+) iterations\.", buf.getvalue(), _re.M)
+    rec.executed = k if mconv is None else int(mconv.group(1)) + 1
     w, (A, B, Cm), Ps = out
     rec.final = dict(kind="parafac2", w=None if w is None else np.array(w, dtype=float), A=np.array(A, dtype=float), B=np.array(B, dtype=float),
                      C=np.array(Cm, dtype=float), Ps=[np.array(P, dtype=float) for P in Ps], slices=[np.array(X[i], dtype=float) for i in range(X.shape[0])])
@@ -918,7 +922,7 @@ def run(chk):
             if name.startswith("parafac2") and "_tol" not in o and rec.errors is not None:
                 # PARAFAC2 loop skeleton, observable projection: number of recorded values (one per iteration, line search included)
                 ls_on = o.get("linesearch", True) is not False
-                lit_len = (f"(KP2Len {C.boolc(ls_on)} {C.boolc(bool(o.get('normalize_factors')))} {C.nat(k)} {C.nat(len(rec.errors))})")
+                lit_len = (f"(KP2Len {C.boolc(ls_on)} {C.boolc(bool(o.get('normalize_factors')))} {C.nat(getattr(rec, 'executed', k))} {C.nat(len(rec.errors))})")
                 col.add(lambda P, lit_len=lit_len: lit_len, dict(inputs=describe(name, entry, X, kind, rank, k, seed, o), what="PARAFAC2 skeleton: number of reported values",
                                                                   entry=entry))
                 chk.count(key=(name, "p2len", k), nontrivial=k > 6)
